@@ -12,7 +12,7 @@ from .common import L
 
 ID = "C14"
 RUNS = {"quick": 12_000, "thorough": 300_000}
-BUDGET_S = {"quick": 60, "thorough": 800}
+BUDGET_S = {"quick": 120, "thorough": 800}
 CHUNK = 150
 RULE = ("each run grows a pool of <= 8 State objects over one generated (domain, problem) by 6-20 tape-drawn operations "
         "(parse problem text with permuted init, parse a serialization with the trajectory parser with/without objects, "
